@@ -520,6 +520,7 @@ recode_qp(const char *buf, const off_t len)
 				idx += chunk;
 				sendbuf[idx++] = '.';
 				chunk = 0;
+				llen++;
 			} else if ((buf[off + chunk] == '\t') || (buf[off + chunk] == ' ')) {
 				/* recode whitespace if a linebreak or the end of the buffer follows */
 				if ((off + (off_t) chunk + 1 == len) ||
